@@ -185,11 +185,15 @@ impl Parser {
         // cache previous function state and set to true temporarily, since we're in a
         let function_scope_state_cache = self.in_function_scope;
         self.in_function_scope = true;
+        // a procedure body starts outside of any loop, even when the declaration is written inside one
+        let loop_scope_state_cache = self.in_loop_scope;
+        self.in_loop_scope = false;
 
         // parse the body of the function
         let body = self.statement()?;
         // restore the previous function scope state
         self.in_function_scope = function_scope_state_cache;
+        self.in_loop_scope = loop_scope_state_cache;
 
         Ok(Stmt::ProcDeclaration(Arc::new(ProcDeclaration {
             name,
